@@ -28,7 +28,7 @@ EST = "dreye.api.estimator:ReceptorEstimator"
 AXES = {
     "objective": (["unity", None, "max"], ["unity", None, "max"]),
     "neutral": ([None, "given"], [None, "given"]),
-    "K": (["vec", "mat", None], ["vec", "mat", None]),
+    "K": (["vec", "mat", None, "scalar"], ["vec", "mat", None, "scalar"]),
     "baseline": (["vec", None], ["vec", None, "scalar"]),
     "lb": (["nonneg", "any"], ["nonneg", "any"]),
     "ub": (["finite", "inf"], ["finite", "inf"]),
